@@ -62,7 +62,7 @@ def term_array(tag: str, args: str, ishape: tuple):
 
 
 def make_function(name: str, params: list[str], nout: int = 1, ishape: tuple = (), sig_defaults: dict | None = None,
-                  hook=None, returns_none: bool = False, dict_keys: list[str] | None = None, one_tuple: bool = False):
+                  hook=None, returns_none: bool = False, dict_keys: list[str] | None = None, one_tuple: bool = False, list_len: int = 0):
     """A user function with signature ``name(*params)`` returning terms; logs every call.
 
     hook(name, kwargs) is called first (fault injection); ishape: the returned value is an ndarray of terms
@@ -80,6 +80,8 @@ def make_function(name: str, params: list[str], nout: int = 1, ishape: tuple = (
 
         if returns_none:
             return None  # a "setup" function: called for its effect (the log entry), its output is None
+        if nout == 1 and list_len:
+            return [f"{name}.{k}({args})" for k in range(list_len)]  # ONE output whose value is a Python list
         if nout == 1:
             return (one(name),) if one_tuple else one(name)  # one_tuple: output_name=("s",) and a 1-tuple return value
         if dict_keys is not None:  # a multi-output function that returns a dict (used with a custom output_picker)
